@@ -174,7 +174,12 @@ func rtBuild(b []byte) *rtNode {
 }
 
 // rtCanon serialises a tree: (tag kids...) ; text without white space ; comments only when wanted.
-func rtCanon(n *rtNode, comments bool, out []byte) []byte {
+func rtSpecialComment(t []byte) bool {
+	return len(t) > 0 && t[0] == '#' || rhHas(t, 0, "[if ")
+}
+
+// rtCanon: comments = 0 none, 1 special only, 2 all
+func rtCanon(n *rtNode, comments int, out []byte) []byte {
 	switch n.tag {
 	case "":
 		for _, c := range n.text {
@@ -184,7 +189,7 @@ func rtCanon(n *rtNode, comments bool, out []byte) []byte {
 		}
 		return out
 	case "!":
-		if comments {
+		if comments == 2 || comments == 1 && rtSpecialComment(n.text) {
 			out = append(append(append(out, "<!"...), n.text...), '>')
 		}
 		return out
@@ -233,7 +238,7 @@ func VerifHTMLTree(n int) {
 		case c == 2:
 			in = append(in, ' ')
 		case c == 3:
-			in = append(in, "<!--c-->"...)
+			in = append(in, []string{"<!--c-->", "<!--#include virtual=\"f\" -->", "<!--[if IE]>i<![endif]-->"}[vChoice("k"+string(rune('a'+i)), 3)]...)
 		default:
 			ch := rtChildren[top]
 			vAssume(c-4 < len(ch))
@@ -245,8 +250,14 @@ func VerifHTMLTree(n int) {
 		in = append(append(append(in, "</"...), open[len(open)-1]...), '>')
 		open = open[:len(open)-1]
 	}
-	keepC := vBool("KeepComments")
-	o := &Minifier{KeepComments: keepC, KeepEndTags: vBool("KeepEndTags"), KeepWhitespace: vBool("KeepWhitespace")}
+	keepAll, keepSpecial := vBool("KeepComments"), vBool("KeepSpecialComments")
+	keepC := 0
+	if keepAll {
+		keepC = 2
+	} else if keepSpecial {
+		keepC = 1
+	}
+	o := &Minifier{KeepComments: keepAll, KeepSpecialComments: keepSpecial, KeepEndTags: vBool("KeepEndTags"), KeepWhitespace: vBool("KeepWhitespace")}
 	orig := append([]byte(nil), in...)
 	out, err := verifHTMLRun(in, o)
 	vReach("after-call")
@@ -257,7 +268,7 @@ func VerifHTMLTree(n int) {
 	if !rhEq(want, got) {
 		// recorded finding C03-F26: </li>, </dt>, </dd> are omitted unconditionally, so a kept comment that follows
 		// such an end tag becomes a child of the element
-		if keepC && rhEq(rtCanon(rtBuild(orig), false, nil), rtCanon(rtBuild(out), false, nil)) {
+		if keepC > 0 && rhEq(rtCanon(rtBuild(orig), 0, nil), rtCanon(rtBuild(out), 0, nil)) {
 			for i := 0; i+5 < len(orig); i++ {
 				if rhHas(orig, i, "</li>") || rhHas(orig, i, "</dt>") || rhHas(orig, i, "</dd>") {
 					j := i + 5
